@@ -104,3 +104,11 @@ pub fn wait_requested(
         })
     })
 }
+
+/// (H6, read only) The monitor's notify-node set as `(timestamp, pthread)` pairs; what
+/// `MonitorListener` has submitted and not yet removed.
+#[cfg(all(feature = "preemptive", unix))]
+#[must_use]
+pub fn monitor_nodes() -> Vec<(u64, u64)> {
+    crate::monitor::Monitor::verif_nodes()
+}
